@@ -538,7 +538,10 @@ theorem variance_formula (hc : 1 < s.count) (hck : s.cookie = 70391967513698304)
     intro e; linarith
   constructor
   · simp only [cmb_datasummary_variance_dom, hck, true_and, and_true, gt_iff_lt, hc, if_true, hcast]
-    exact ⟨by omega, hnz⟩
+    first
+      | exact ⟨by omega, hnz⟩
+      | exact hnz
+      | exact ⟨hnz, by omega⟩
   · simp only [cmb_datasummary_variance, gt_iff_lt, hc, if_true, hcast]
 
 theorem variance_small_count (hc : s.count ≤ 1) (hck : s.cookie = 70391967513698304) :
